@@ -182,6 +182,10 @@ fn pipe_in_items(cfg: &Cfg) {
     if cfg.opt("late", 0) == 1 {
         ctl.set_eager_waker();
     }
+    // `wl`=1: the producer wakes the pipe while holding its channel's lock, which the input stream's destructor also takes
+    if cfg.opt("wl", 0) == 1 {
+        ctl.set_wake_locked();
+    }
     let closure_drops = Arc::new(AtomicUsize::new(0));
     let dc = DropCount(closure_drops.clone());
     let st2 = st.clone();
